@@ -126,9 +126,9 @@ class Term(ItemSequenceT[T]):
         if len(_items) == 1:
             (elem, exp) = _items[0]
             if isinstance(elem, Rational):
-                if exp == 1:
+                if exp == 1 and elem != 1:
                     self._normalized = self
-            elif elem.is_base_elem():
+            elif exp != 0 and elem.is_base_elem():
                 self._normalized = self
 
     def _reduce_items(self, items: ItemIterableT[T],
